@@ -172,6 +172,8 @@ def thorough_extras(prop, obs, meta) -> int:
     for ob in obs:
         if isinstance(ob, tuple) or ob.status != PROVED or not ob.witness or ob.witness.get("family") != "call":
             continue
+        if ob.witness.get("no_crosscheck"):
+            continue        # a copy of another property's obligation: cross-checked (and its findings listed) there
         key = (ob.witness["oracle"], json.dumps(ob.witness.get("args", []), sort_keys=True, default=str))
         if key not in owner:
             owner[key] = ob
